@@ -54,3 +54,53 @@ func AfterFailedWrite(limits []int, write func(item int, w io.Writer) error) str
 
 // FailLimits: sink capacities around record and block sizes.
 var FailLimits = []int{0, 1, 16, 31, 32, 33, 64, 100, 500, 4095, 4096, 4097, 20000}
+
+// AfterFailedRead: a reader entry point is a function of the bytes it is handed — also right after an
+// earlier call failed half-way (a pooled table, a cached header, a scratch buffer left in the state
+// the failure found it in).  For every bad input, the bad input is decoded (whatever that returns),
+// then the good input is decoded: its digest must be the one it had before any failure happened.
+// read returns a digest of everything the decode reported (and the error, which is part of it).
+func AfterFailedRead(bad [][]byte, good []byte, read func(data []byte) (string, error)) string {
+	var ref string
+	var refErr error
+	if o := Guard(func() { ref, refErr = read(good) }); o.Crash() || refErr != nil {
+		return "" // the good input does not decode at all: nothing to compare
+	}
+	for i, b := range bad {
+		if o := Guard(func() { _, _ = read(b) }); o.Crash() && !o.Panicked {
+			return fmt.Sprintf("decoding bad input %d (%d bytes) crashed: %s", i, len(b), o.Msg)
+		}
+		var got string
+		var err error
+		msg := ""
+		if o := Guard(func() { got, err = read(good) }); o.Panicked {
+			msg = "panicked: " + o.Msg
+		} else if err != nil {
+			msg = "failed: " + err.Error()
+		} else if got != ref {
+			msg = "decoded to other data than before the failure"
+		}
+		if msg != "" {
+			return fmt.Sprintf("after decoding bad input %d (%d of its bytes, then damage), the next decode of a good input %s", i, len(b), msg)
+		}
+	}
+	return ""
+}
+
+// BadInputs: damaged forms of a well-formed input: cut at up to `cuts` positions spread over the
+// whole input (every position when it is short), and — at the same positions — one byte replaced by
+// a byte that belongs to no number and no keyword, the rest kept.
+func BadInputs(data []byte, cuts int) (out [][]byte) {
+	n := len(data)
+	step := 1
+	if n > cuts {
+		step = n / cuts
+	}
+	for p := 0; p < n; p += step {
+		out = append(out, append([]byte{}, data[:p]...))
+		d := append([]byte{}, data...)
+		d[p] = '@'
+		out = append(out, d)
+	}
+	return out
+}
